@@ -11,7 +11,7 @@ import io
 import itertools
 from http import HTTPStatus
 
-from ..monitors.reach import Reach
+from ..monitors.reach import Reach, opt
 
 ID = "C05"
 RULE = (
@@ -384,13 +384,13 @@ def run(shard, rec, rng):
 
     cfg = TIERS[shard["_tier"]]
     reach = Reach(rec, {
-        "Response.get_wsgi_headers": WR.Response.get_wsgi_headers,
-        "Response.get_app_iter": WR.Response.get_app_iter,
-        "Response.close": WR.Response.close,
-        "Response.make_sequence": WR.Response.make_sequence,
-        "ClosingIterator.close": WS.ClosingIterator.close,
-        "_str_header_value": HD._str_header_value,
-        "Response._clean_status": SR.Response._clean_status,
+        "Response.get_wsgi_headers": opt(lambda: WR.Response.get_wsgi_headers),
+        "Response.get_app_iter": opt(lambda: WR.Response.get_app_iter),
+        "Response.close": opt(lambda: WR.Response.close),
+        "Response.make_sequence": opt(lambda: WR.Response.make_sequence),
+        "ClosingIterator.close": opt(lambda: WS.ClosingIterator.close),
+        "_str_header_value": opt(lambda: HD._str_header_value),
+        "Response._clean_status": opt(lambda: SR.Response._clean_status),
     })
     if shard["kind"] == "mutators":
         run_mutators(shard, rec, rng, cfg["hist_len"])
